@@ -162,4 +162,53 @@ theorem getNumSteps_ok {a : Assertion α} {n : Nat} (hv : a.validateTraceLength 
   · simp [h0]
   · by_cases h1 : a.values.length = 1 <;> simp [h0, h1]
 
+/-- the step list in closed form: `first + stride * i` for `i` below the number of steps -/
+theorem stepList_eq_map (a : Assertion α) (n : Nat) :
+    a.stepList n =
+      if a.stride = 0 then [a.first]
+      else (List.range (a.stepList n).length).map (fun i => a.first + a.stride * i) := by
+  by_cases h0 : a.stride = 0
+  · rw [if_pos h0]; unfold Assertion.stepList Assertion.isSingle; simp [h0]
+  · rw [if_neg h0, stepList_length, if_neg h0]
+    unfold Assertion.stepList Assertion.isSingle Assertion.isPeriodic
+    by_cases h1 : a.values.length = 1 <;> simp [h0, h1]
+
+/-- every named step lies inside the trace -/
+theorem stepList_lt {a : Assertion α} {n s : Nat} (hw : WF a) (hv : a.validateTraceLength n = .ok ())
+    (h : s ∈ a.stepList n) : s < n := by
+  have hh := (mem_stepList_iff hw hv s).mp h
+  have hf := shape_fits hw hv
+  unfold Shape.has at hh
+  unfold Shape.fits at hf
+  by_cases h0 : (shape a).stride = 0
+  · rw [if_pos h0] at hh hf; omega
+  · rw [if_neg h0] at hh; exact hh.1
+
+/-- `n = S · k` with `k` the number of steps and `S` the spacing (`n` itself for a single step),
+    and the exponent `k · first` used by `from_assertion` stays inside the trace domain -/
+theorem steps_factor {a : Assertion α} {n : Nat} (hw : WF a) (hv : a.validateTraceLength n = .ok ())
+    (hn : 0 < n) :
+    n = (if a.stride = 0 then n else a.stride) * (a.stepList n).length ∧
+      (a.stepList n).length * a.first < n := by
+  rw [stepList_length]
+  by_cases h0 : a.stride = 0
+  · have hf := shape_fits hw hv
+    unfold Shape.fits shape at hf
+    simp only [h0, if_true] at hf ⊢
+    omega
+  · have hmul := stride_mul_steps hw hv h0
+    have hfs : a.first < a.stride := by
+      rcases hw with ⟨h, _⟩ | ⟨_, _, h, _⟩
+      · exact absurd h h0
+      · exact h
+    simp only [if_neg h0]
+    refine ⟨hmul.symm, ?_⟩
+    generalize (if a.values.length = 1 then n / a.stride else a.values.length) = k at hmul ⊢
+    have hk : 0 < k := by
+      rcases Nat.eq_zero_or_pos k with h | h
+      · subst h; omega
+      · exact h
+    calc k * a.first < k * a.stride := Nat.mul_lt_mul_of_pos_left hfs hk
+      _ = n := by rw [Nat.mul_comm]; exact hmul
+
 end WinterProofs.C16L
